@@ -16,24 +16,34 @@
 (* function / method x argument shape occurs as a cell.                    *)
 (***************************************************************************)
 EXTENDS Integers, Sequences, FiniteSets, TLC, Json
-CONSTANTS Cells, Ops, MaxOps
+CONSTANTS Cells, Ops, MaxOps, Progs, Flags
 
-VARIABLES cell, cache, ran, hist
-vars == <<cell, cache, ran, hist>>
-\* programs: "c" = the cell's program, "d" = a fixed other program
-Init == cell \in Cells /\ cache = {} /\ ran = 0 /\ hist = <<>>
+VARIABLES cell, cache, ran, hist, chain
+vars == <<cell, cache, ran, hist, chain>>
+\* programs: "c" = the cell's program, "d" = a fixed other program, "x" = a parsable program whose analysis FAILS
+\* inside the evaluation of a builtin call (`sorted(**opts)`): visit_Call pushes the definition on the recursion-
+\* detection stack (definition_chain) and the exception skips the pop.  IMPLEMENTATION-SHAPED part: every analysis
+\* that really runs starts by TifaCore.reset(), which re-creates the stack; flag chain_not_reset models a stack
+\* created once per instance.  `chain` is what is left on that stack between analyses; an analysis that starts
+\* with a non-empty stack reports spurious recursive calls for the builtins backed by the stranded definition.
+Init == cell \in Cells /\ cache = {} /\ ran = 0 /\ hist = <<>> /\ chain = {}
 Analyze(p) == /\ Len(hist) < MaxOps /\ "A" \in Ops
               /\ cache' = cache \cup {p}
               /\ ran' = IF p \in cache THEN ran ELSE ran + 1
-              /\ hist' = Append(hist, [op |-> "analyze", p |-> p, hit |-> p \in cache, ran |-> ran'])
+              /\ LET start == IF "chain_not_reset" \in Flags THEN chain ELSE {}      \* reset()
+                 IN /\ chain' = IF p \in cache THEN chain ELSE IF p = "x" THEN start \cup {"identity"} ELSE start
+                    /\ hist' = Append(hist, [op |-> "analyze", p |-> p, hit |-> p \in cache, ran |-> ran',
+                                              clean |-> (p \in cache \/ start = {})])
               /\ UNCHANGED cell
 ClearReport == /\ Len(hist) < MaxOps /\ "C" \in Ops /\ hist # <<>>
                /\ cache' = {} /\ ran' = 0
-               /\ hist' = Append(hist, [op |-> "clear", p |-> "-", hit |-> FALSE, ran |-> 0])
-               /\ UNCHANGED cell
-Next == Analyze("c") \/ Analyze("d") \/ ClearReport
+               /\ hist' = Append(hist, [op |-> "clear", p |-> "-", hit |-> FALSE, ran |-> 0, clean |-> TRUE])
+               /\ UNCHANGED <<cell, chain>>      \* the Tifa instance (and whatever is stranded in it) survives a clear
+Next == (\E p \in Progs : Analyze(p)) \/ ClearReport
 Spec == Init /\ [][Next]_vars
 \* a cache hit never runs an analysis; the run counter equals the number of distinct programs since the last clear
 RanIsDistinct == ran = Cardinality(cache)
+\* no analysis ever starts from residue of an earlier (possibly failed) one: its result is a function of the program
+StartsClean == \A i \in 1..Len(hist) : hist[i].clean
 Export == Len(hist) = MaxOps => PrintT(<<"VP", ToJson([cell |-> cell, hist |-> hist])>>)
 =============================================================================
